@@ -149,12 +149,14 @@ func doFetch(f *ntske.Fetcher, o *op) (string, bool, ntske.Data) {
 
 // hist is one history on one fresh Fetcher.
 type hist struct {
-	f      *ntske.Fetcher
-	ops    []op
-	obs    []string
-	tags   map[string]bool
-	lastOK bool
-	pool   int // cookies the fetcher should still hold, as far as the harness can tell
+	f        *ntske.Fetcher
+	q        *quicPeer // non-nil: the Fetcher has QUIC.Enabled and this is its scripted peer (kind ke.quic)
+	deferred bool      // written later by the caller
+	ops      []op
+	obs      []string
+	tags     map[string]bool
+	lastOK   bool
+	pool     int // cookies the fetcher should still hold, as far as the harness can tell
 }
 
 func newHist(r *lib.Rng) *hist {
@@ -163,7 +165,14 @@ func newHist(r *lib.Rng) *hist {
 
 func (h *hist) fetch(sc script) (bool, ntske.Data) {
 	o := op{sc: sc}
-	line, ok, d := doFetch(h.f, &o)
+	var line string
+	var ok bool
+	var d ntske.Data
+	if h.q != nil {
+		line, ok, d = doFetchQUIC(h.q, h.f, &o)
+	} else {
+		line, ok, d = doFetch(h.f, &o)
+	}
 	h.ops = append(h.ops, o)
 	h.obs = append(h.obs, line)
 	h.lastOK = ok
@@ -184,16 +193,24 @@ func (h *hist) store(c []byte) {
 }
 
 func (h *hist) write() {
+	if h.deferred {
+		return
+	}
+	kind := "ke.hist"
+	if h.q != nil {
+		kind = "ke.quic"
+	}
 	var ts []string
 	for t := range h.tags {
 		ts = append(ts, t)
 	}
 	sort.Strings(ts)
-	w.Case("ke.hist", strings.Join(ts, ","), fmtOps(h.ops), lib.L(h.obs...))
+	w.Case(kind, strings.Join(ts, ","), fmtOps(h.ops), lib.L(h.obs...))
 }
 
-func replayHist(r *lib.Rng, ops []op, tags string) {
-	h := newHist(r)
+func replayHist(r *lib.Rng, ops []op, tags string) { replayOn(newHist(r), ops, tags) }
+
+func replayOn(h *hist, ops []op, tags string) {
 	for _, t := range strings.Split(tags, ",") {
 		if t != "" {
 			h.tags[t] = true
@@ -223,6 +240,8 @@ func main() {
 			switch c[0] {
 			case "ke.hist":
 				replayHist(r, parseOps(c[2]), c[1])
+			case "ke.quic":
+				replayQUIC(r, parseOps(c[2]), c[1])
 			case "ke.target":
 				vs := parseVals(c[2])
 				var ch [][2]int
